@@ -342,6 +342,7 @@ func Run(opts *Options) (int, error) {
 			}
 			return query
 		}
+		verifPoint("core:wait")
 		eventBox.Wait(func(events *util.Events) {
 			if _, fin := (*events)[EvtReadFin]; fin {
 				delete(*events, EvtReadNew)
